@@ -25,6 +25,10 @@ pub enum Case {
     Chunk { cfg: Cfg, ops: Vec<Op>, burst: usize, cuts: Vec<usize> },
     /// C16 / C10 / C17 twin comparison; `ops` = head, `cont` = traced continuation
     Fork { kind: ForkKind, cfg: Cfg, ops: Vec<Op>, cont: Vec<Op>, mangle: ExportMangle },
+    /// one cell of the C11 / C17 matrix (index into the enumeration); index = number of cells: compile-time table
+    Cell { prop: String, index: usize },
+    /// C11: the same history with and without a refused send injected before op `at`
+    Inject { cfg: Cfg, ops: Vec<Op>, at: usize, pkt: crate::wire::Pkt },
 }
 
 impl Case {
@@ -34,6 +38,8 @@ impl Case {
             Case::Alloc { case } => case.ops.len(),
             Case::Chunk { ops, .. } => ops.len(),
             Case::Fork { ops, cont, .. } => ops.len() + cont.len(),
+            Case::Cell { .. } => 0,
+            Case::Inject { ops, .. } => ops.len(),
         }
     }
     /// the case with only the ops whose index is in `keep`
@@ -46,6 +52,11 @@ impl Case {
                 Case::Alloc { case: c }
             }
             Case::Chunk { cfg, ops, burst, cuts } => Case::Chunk { cfg: cfg.clone(), ops: ops.iter().zip(keep).filter(|(_, k)| **k).map(|(o, _)| o.clone()).collect(), burst: *burst, cuts: cuts.clone() },
+            Case::Cell { .. } => self.clone(),
+            Case::Inject { cfg, ops, at, pkt } => {
+                let removed_before = keep[..*at.min(&keep.len())].iter().filter(|k| !**k).count();
+                Case::Inject { cfg: cfg.clone(), ops: ops.iter().zip(keep).filter(|(_, k)| **k).map(|(o, _)| o.clone()).collect(), at: at - removed_before, pkt: pkt.clone() }
+            }
             Case::Fork { kind, cfg, ops, cont, mangle } => {
                 let n = ops.len();
                 Case::Fork {
@@ -60,7 +71,7 @@ impl Case {
     }
     pub fn simpler_variants(&self) -> Vec<Case> {
         match self {
-            Case::Alloc { .. } => vec![],
+            Case::Alloc { .. } | Case::Cell { .. } | Case::Inject { .. } => vec![],
             Case::Chunk { cfg, ops, burst, cuts } => {
                 // fewer cuts, earlier bursts
                 let mut out = vec![];
@@ -387,6 +398,8 @@ pub fn generate(prop: &str, rng: &mut Rng, tier: Tier, run: u64) -> (Case, Outco
         "C09" => return gen_c09(rng, tier, run),
         "C16" => return gen_c16(rng, tier, run),
         "C10" => return gen_c10(rng, tier, run),
+        "C11" => return gen_c11(rng, tier, run),
+        "C17" => return gen_c17(rng, tier, run),
         _ => {}
     }
     let faults = run % 4 != 0;
@@ -725,6 +738,176 @@ fn gen_c10(rng: &mut Rng, tier: Tier, run: u64) -> (Case, Outcome) {
     (Case::Fork { kind: ForkKind::Fresh, cfg, ops, cont, mangle: ExportMangle::None }, o)
 }
 
+fn cell_outcome(prop: &str, index: usize) -> Outcome {
+    use crate::matrix;
+    let mut o = Outcome { nontrivial: true, shape: h64(&(prop, index)), ..Default::default() };
+    if prop == "C11" {
+        let cells = matrix::c11_cells();
+        if index == cells.len() {
+            o.viol = matrix::check_compile_time();
+            o.stats.hit("c11_compile_time_table_checked");
+            return o;
+        }
+        let r = matrix::run_c11_cell(&cells[index]);
+        o.viol = r.viol;
+        o.log = r.log;
+        o.log.push(r.desc);
+        o.steps = r.steps;
+        *o.stats.probes.entry("c11_matrix_cells").or_insert(0) += 1;
+        if r.refused {
+            *o.stats.probes.entry("c11_matrix_cells_refused").or_insert(0) += 1;
+        }
+    } else {
+        let cells = matrix::c17_cells();
+        let r = matrix::run_c17_cell(&cells[index]);
+        o.viol = r.viol;
+        o.log = r.log;
+        o.log.push(r.desc);
+        o.steps = r.steps;
+        *o.stats.probes.entry("c17_matrix_cells").or_insert(0) += 1;
+        if r.refused {
+            *o.stats.probes.entry("c17_matrix_cells_rejected").or_insert(0) += 1;
+        }
+    }
+    o
+}
+
+fn inject_outcome(cfg: &Cfg, ops: &[Op], at: usize, pkt: &crate::wire::Pkt) -> Outcome {
+    let mut a = Solo::new(cfg.clone());
+    let mut b = Solo::new(cfg.clone());
+    a.w.trace = Some(vec![]);
+    b.w.trace = Some(vec![]);
+    let mut o = Outcome::default();
+    let mut injected = false;
+    for (i, op) in ops.iter().enumerate() {
+        if i == at && !b.w.failed() {
+            // only a call that the gate table refuses is injected
+            if matches!(b.w.expect_send(pkt), Expect::Refuse(_)) {
+                let n = b.w.trace.as_ref().unwrap().len();
+                let evs = b.w.send(pkt);
+                b.w.trace.as_mut().unwrap().truncate(n);
+                injected = true;
+                if evs.iter().any(|e| matches!(e, Ev::Released(_))) {
+                    // the packet's own id became free: outside "as if not made" (allowed by the statement)
+                    injected = false;
+                    break;
+                }
+            } else {
+                break;
+            }
+        }
+        a.exec(op);
+        b.exec(op);
+        if a.w.failed() || b.w.failed() {
+            break;
+        }
+    }
+    merge_solo_stats(&mut o, &a);
+    o.log = b.w.log.clone();
+    if !injected {
+        return o;
+    }
+    o.nontrivial = true;
+    o.stats.hit("c11_refused_call_injected");
+    *o.faults.entry("refused_send_injected".into()).or_insert(0) += 1;
+    let ta = a.w.trace.clone().unwrap();
+    let tb = b.w.trace.clone().unwrap();
+    if let Some(v) = &b.w.viol {
+        if !a.w.failed() {
+            // the branch with the injected call tripped a monitor the plain branch did not
+            let mut v = v.clone();
+            if v.props.is_empty() {
+                o.viol = Some(v);
+                return o;
+            }
+            if !v.props.contains(&"C11") {
+                v.props.push("C11");
+            }
+            v.class = format!("after-refused-send/{}", v.class);
+            o.viol = Some(v);
+            return o;
+        }
+    }
+    for i in 0..ta.len().max(tb.len()) {
+        if ta.get(i) != tb.get(i) {
+            let f = |t: Option<&(String, Vec<Ev>)>| t.map(|(w, e)| format!("{w} -> {}", evs_short(e))).unwrap_or_else(|| "<nothing>".into());
+            o.viol = Some(Violation { props: vec!["C11"], class: format!("refused-send-changes-behaviour/{}", crate::wire::kind_name(pkt.kind)), msg: format!("after a refused send({}) before op {at}: call {i}: [{}] vs [{}]", pkt.short(), f(ta.get(i)), f(tb.get(i))), step: i });
+            return o;
+        }
+    }
+    if a.w.failed() || b.w.failed() {
+        o.viol = a.w.viol.clone().or(b.w.viol.clone());
+        return o;
+    }
+    if a.w.ep.state() != b.w.ep.state() {
+        o.viol = Some(Violation { props: vec!["C11"], class: format!("refused-send-leaves-trace/{}", crate::wire::kind_name(pkt.kind)), msg: format!("final state differs after a refused send({}) before op {at}", pkt.short()), step: ta.len() });
+    }
+    o
+}
+
+fn gen_c11(rng: &mut Rng, tier: Tier, run: u64) -> (Case, Outcome) {
+    let n = crate::matrix::c11_cells().len() as u64;
+    if run <= n {
+        return (Case::Cell { prop: "C11".into(), index: run as usize }, cell_outcome("C11", run as usize));
+    }
+    let cfg = solo::gen_cfg(rng, run % 2 == 0);
+    let prof = GenProfile::default();
+    let len = rng.range(3, if tier == Tier::Quick { 30 } else { 80 });
+    let (_, mut ops) = gen_history(&cfg, &prof, rng, len, false);
+    ops.push(Op::Drain);
+    let at = rng.below(ops.len() as u64) as usize;
+    let reps = crate::matrix::rep_packets();
+    let mut pkt = rng.pick(&reps).clone();
+    if pkt.id.is_none() && !matches!(pkt.kind, crate::wire::CONNECT | crate::wire::CONNACK | crate::wire::PINGREQ | crate::wire::PINGRESP | crate::wire::DISCONNECT | crate::wire::AUTH) && !(pkt.kind == crate::wire::PUBLISH && pkt.qos == 0) {
+        // an id that is not in use: the refusal cannot release anything
+        pkt.id = Some(*rng.pick(&[40000u32, 50000, 65000]));
+    }
+    let mut o = inject_outcome(&cfg, &ops, at, &pkt);
+    o.shape = h64(&(ops.iter().map(op_kind).collect::<Vec<_>>(), at, pkt.kind, pkt.v));
+    (Case::Inject { cfg, ops, at, pkt }, o)
+}
+
+fn gen_c17(rng: &mut Rng, tier: Tier, run: u64) -> (Case, Outcome) {
+    let n = crate::matrix::c17_cells().len() as u64;
+    if run < n {
+        return (Case::Cell { prop: "C17".into(), index: run as usize }, cell_outcome("C17", run as usize));
+    }
+    // auto-detection: an undetermined server and a fixed-version server in lock-step
+    let mut cfg = solo::gen_cfg(rng, run % 2 == 0);
+    cfg.as_client = false;
+    cfg.role = if rng.chance(1, 5) { Role::Any } else { Role::Server };
+    cfg.ver = Ver::Undet;
+    cfg.f_crash = false;
+    let prof = GenProfile::default();
+    let len = rng.range(2, if tier == Tier::Quick { 30 } else { 80 });
+    let (s, mut ops) = gen_history(&cfg, &prof, rng, len, run % 3 == 0);
+    let mut o = Outcome { shape: h64(&ops.iter().map(op_kind).collect::<Vec<_>>()), ..Default::default() };
+    if s.w.failed() {
+        o.viol = s.w.viol.clone();
+        merge_solo_stats(&mut o, &s);
+        o.log = s.w.log.clone();
+        return (Case::Solo { cfg, ops }, o);
+    }
+    if !s.w.lenient {
+        ops.push(Op::Drain);
+    }
+    // "from then on": the comparison starts with the first CONNECT
+    let first = ops.iter().position(|o| matches!(o, Op::Connect { .. })).unwrap_or(ops.len());
+    ops.drain(..first);
+    if ops.is_empty() {
+        return (Case::Fork { kind: ForkKind::Version, cfg, ops: vec![], cont: ops, mangle: ExportMangle::None }, o);
+    }
+    o.nontrivial = s.w.stats.frames >= 2;
+    let fo = fork_outcome(ForkKind::Version, &cfg, &[], &ops, ExportMangle::None);
+    merge_o(&mut o, &fo);
+    o.stats.hit("c17_version_twin_runs");
+    if fo.viol.is_some() {
+        o.viol = fo.viol.clone();
+        o.log = fo.log.clone();
+    }
+    (Case::Fork { kind: ForkKind::Version, cfg, ops: vec![], cont: ops, mangle: ExportMangle::None }, o)
+}
+
 fn merge_o(o: &mut Outcome, f: &Outcome) {
     o.stats.merge(&f.stats);
     for (k, v) in &f.faults {
@@ -749,6 +932,8 @@ pub fn replay(_prop: &str, case: &Case) -> Outcome {
             o
         }
         Case::Fork { kind, cfg, ops, cont, mangle } => fork_outcome(*kind, cfg, ops, cont, *mangle),
+        Case::Cell { prop, index } => cell_outcome(prop, *index),
+        Case::Inject { cfg, ops, at, pkt } => inject_outcome(cfg, ops, *at, pkt),
         Case::Alloc { case } => alloc_outcome(case),
         Case::Solo { cfg, ops } => {
             let mut s = Solo::new(cfg.clone());
